@@ -286,3 +286,56 @@ Proof.
   - exact glue_I_overflowing_abs.
 Qed.
 
+(* ==== round 2 (tools/mk_gluetie.py) ==== *)
+(* abs, unsigned_abs, abs_diff, midpoint of buint/mod.rs and bint/mod.rs; BInt::neg; unchecked_add / unchecked_sub *)
+Lemma glue_U_midpoint : forall dbg w a b, Glue.U_midpoint dbg w a b = U_midpoint dbg w a b.
+Proof. glue_tac. Qed.
+Lemma glue_U_abs_diff : forall w a b, Glue.U_abs_diff w a b = U_abs_diff w a b.
+Proof. glue_tac. Qed.
+Lemma glue_I_unsigned_abs : forall w a, Glue.I_unsigned_abs w a = I_unsigned_abs w a.
+Proof. glue_tac. Qed.
+Lemma glue_I_abs : forall dbg w a, Glue.I_abs dbg w a = I_abs dbg w a.
+Proof. glue_tac. Qed.
+Lemma glue_I_midpoint : forall dbg w a b, Glue.I_midpoint dbg w a b = I_midpoint dbg w a b.
+Proof. glue_tac. Qed.
+Lemma glue_I_abs_diff : forall w a b, Glue.I_abs_diff w a b = I_abs_diff w a b.
+Proof. glue_tac. Qed.
+Lemma glue_I_neg : forall dbg w a, Glue.I_neg dbg w a = I_neg dbg w a.
+Proof. glue_tac. Qed.
+Lemma glue_U_unchecked_add : forall w a b, Glue.U_unchecked_add w a b = U_checked_add w a b.
+Proof. glue_tac. Qed.
+Lemma glue_U_unchecked_sub : forall w a b, Glue.U_unchecked_sub w a b = U_checked_sub w a b.
+Proof. glue_tac. Qed.
+Lemma glue_I_unchecked_add : forall w a b, Glue.I_unchecked_add w a b = I_checked_add w a b.
+Proof. glue_tac. Qed.
+Lemma glue_I_unchecked_sub : forall w a b, Glue.I_unchecked_sub w a b = I_checked_sub w a b.
+Proof. glue_tac. Qed.
+
+Definition glue_addsub2_statement : Prop :=
+  (forall dbg w a b, Glue.U_midpoint dbg w a b = U_midpoint dbg w a b) /\
+  (forall w a b, Glue.U_abs_diff w a b = U_abs_diff w a b) /\
+  (forall w a, Glue.I_unsigned_abs w a = I_unsigned_abs w a) /\
+  (forall dbg w a, Glue.I_abs dbg w a = I_abs dbg w a) /\
+  (forall dbg w a b, Glue.I_midpoint dbg w a b = I_midpoint dbg w a b) /\
+  (forall w a b, Glue.I_abs_diff w a b = I_abs_diff w a b) /\
+  (forall dbg w a, Glue.I_neg dbg w a = I_neg dbg w a) /\
+  (forall w a b, Glue.U_unchecked_add w a b = U_checked_add w a b) /\
+  (forall w a b, Glue.U_unchecked_sub w a b = U_checked_sub w a b) /\
+  (forall w a b, Glue.I_unchecked_add w a b = I_checked_add w a b) /\
+  (forall w a b, Glue.I_unchecked_sub w a b = I_checked_sub w a b).
+Theorem glue_addsub2_matches_model : glue_addsub2_statement.
+Proof.
+  unfold glue_addsub2_statement. repeat apply conj.
+  - exact glue_U_midpoint.
+  - exact glue_U_abs_diff.
+  - exact glue_I_unsigned_abs.
+  - exact glue_I_abs.
+  - exact glue_I_midpoint.
+  - exact glue_I_abs_diff.
+  - exact glue_I_neg.
+  - exact glue_U_unchecked_add.
+  - exact glue_U_unchecked_sub.
+  - exact glue_I_unchecked_add.
+  - exact glue_I_unchecked_sub.
+Qed.
+(* ==== end of round 2 ==== *)
